@@ -439,8 +439,11 @@ def check_options(r, run_b, render_site, sfx):
         sort_ok = srt[0] == "call" and srt[1] in ("std::convert::Into::into", "std::convert::From::from") and _is_field(srt[2][0], "sort")
         bases = []
         rest_ok = True
+        # the derive list may be stored directly (`derive: config.derive.clone()`): Options::derive is a plain setter of that
+        # field (R10.5.builder), so this is the same value
+        derive_direct = _is_field(strip(vals.get("derive", ("x",)), mir.VALUE_PRESERVING), "derive")
         for f, v in vals.items():
-            if f == "sort":
+            if f == "sort" or (f == "derive" and derive_direct):
                 continue
             if v[0] == "proj" and [e[3] for e in v[2] if e != "*" and e[0] == "f"] == [f]:
                 bases.append(strip(v[1]))
@@ -453,7 +456,9 @@ def check_options(r, run_b, render_site, sfx):
                 dd = run_b.defs().get(bt[1], [])
                 if len(dd) == 1 and dd[0].si is None:
                     bt = ("call", cname(dd[0].node), [term_of(run_b, a) for a in dd[0].node["args"]], dd[0])
-            if bt[0] == "call" and bt[1].endswith("Options::derive") and len(bt[2]) == 2:
+            if derive_direct:
+                base_ok = bt[0] == "call" and bt[1] in ("std::convert::Into::into", "std::convert::From::from") and len(bt[2]) == 1 and _is_field(bt[2][0], "parser")
+            elif bt[0] == "call" and bt[1].endswith("Options::derive") and len(bt[2]) == 2:
                 pre = strip(bt[2][0])
                 dv = strip(bt[2][1], mir.VALUE_PRESERVING)
                 base_ok = pre[0] == "call" and pre[1] in ("std::convert::Into::into", "std::convert::From::from") and _is_field(pre[2][0], "parser") and _is_field(dv, "derive")
@@ -531,9 +536,11 @@ def check_tables(r, b, sfx):
         "xml_schema_generator::Options": {"QuickXmlDe": "quick_xml_de", "SerdeXmlRs": "serde_xml_rs"},
         "xml_schema_generator::SortBy": {"Unsorted": "Unsorted", "Name": "XmlName"},
     }
+    found_tables = set()
     for body in b.real_bodies():
-        m = re.match(r"^args::<impl std::convert::From<args::(\w+)> for (xml_schema_generator::\w+)>::from$", body.name)
+        m = re.match(r"^args::<impl std::convert::From<(?:&(?:'\w+ )?)?args::(\w+)> for (xml_schema_generator::\w+)>::from$", body.name)
         if m and m.group(2) in want_from:
+            found_tables.add(m.group(2))
             sw = mir.switch_enum(body, 0)
             table = want_from[m.group(2)]
             got = {}
@@ -552,6 +559,9 @@ def check_tables(r, b, sfx):
             ok = got == {k: [v] for k, v in table.items()}
             r.ob("R12.5.conversion-table" + sfx, body.name, ok, "maps %s" % got if ok else "maps %s, expected %s" % (got, table),
                  site=mir.line_of(body.span), key="R12.5|from|%s%s" % (m.group(2), sfx))
+    for ty in sorted(want_from):
+        r.ob("R12.5.conversion-table-found" + sfx, ty, ty in found_tables, "the conversion from the command-line value to %s is a `From` impl in args" % ty if ty in found_tables else
+             "no `From<command-line value> for %s` found: the mapping of the option values is not checked" % ty, key="R12.5|from-found|%s%s" % (ty, sfx))
     names = {"ParserArg": {"QuickXmlDe": "quick-xml-de", "SerdeXmlRs": "serde-xml-rs"}, "SortByArg": {"Unsorted": "unsorted", "Name": "name"}}
     defaults = {"ParserArg": "QuickXmlDe", "SortByArg": "Unsorted"}
     for ty, table in names.items():
